@@ -88,6 +88,20 @@ fn tokenize(mut s: &str) -> Result<Vec<Token>, ParseError> {
     Ok(tokens)
 }
 
+fn try_pattern_to_re<L: Language>(pat: &Pattern<L>) -> Option<RecExpr<L>> {
+    let Pattern::ENode(n, children) = pat else {
+        return None;
+    };
+    let children = children
+        .iter()
+        .map(try_pattern_to_re)
+        .collect::<Option<Vec<_>>>()?;
+    Some(RecExpr {
+        node: n.clone(),
+        children,
+    })
+}
+
 // parse:
 impl<L: Language> Pattern<L> {
     pub fn parse(s: &str) -> Result<Self, ParseError> {
@@ -104,8 +118,10 @@ impl<L: Language> Pattern<L> {
 
 impl<L: Language> RecExpr<L> {
     pub fn parse(s: &str) -> Result<Self, ParseError> {
+        let tok = tokenize(s)?;
         let pat = Pattern::parse(s)?;
-        Ok(pattern_to_re(&pat))
+        // a term contains neither pattern variables nor substitutions.
+        try_pattern_to_re(&pat).ok_or_else(|| ParseError::ParseState(tok))
     }
 }
 
@@ -117,17 +133,19 @@ impl<L: Language> MultiPattern<L> {
             let x = x.trim();
             if x.is_empty() { continue }
 
+            let err = || ParseError::TokenState(x.to_string());
             let v: Box<[&str]> = x.split("==").collect();
-            assert_eq!(v.len(), 2);
+            if v.len() != 2 { return Err(err()); }
             let var: Pattern<L> = Pattern::parse(v[0])?;
             let rhs: Pattern<L> = Pattern::parse(v[1])?;
-            let Pattern::PVar(v) = var else { panic!("{var} isn't a PVar") };
-            let Pattern::ENode(n, children) = rhs else { panic!("{rhs} isn't an e-node") };
-            let children = children.into_iter().map(|x| {
-                let Pattern::PVar(xx) = x else { panic!("child {x} isn't a PVar") };
-                xx
-            }).collect();
-            out.push((v, n, children));
+            let Pattern::PVar(v) = var else { return Err(err()) };
+            let Pattern::ENode(n, children) = rhs else { return Err(err()) };
+            let mut pvars = Vec::new();
+            for x in children {
+                let Pattern::PVar(xx) = x else { return Err(err()) };
+                pvars.push(xx);
+            }
+            out.push((v, n, pvars));
         }
         Ok(MultiPattern { pats: out })
     }
@@ -140,7 +158,7 @@ fn parse_pattern<L: Language>(tok: &[Token]) -> Result<(Pattern<L>, &[Token]), P
         let (l, tok2) = parse_pattern(tok)?;
         tok = tok2;
 
-        let Token::ColonEquals = &tok[0] else {
+        let Some(Token::ColonEquals) = tok.get(0) else {
             return Err(ParseError::ExpectedColonEquals(to_vec(tok)));
         };
         tok = &tok[1..];
@@ -148,7 +166,7 @@ fn parse_pattern<L: Language>(tok: &[Token]) -> Result<(Pattern<L>, &[Token]), P
         let (r, tok2) = parse_pattern(tok)?;
         tok = tok2;
 
-        let Token::RBracket = &tok[0] else {
+        let Some(Token::RBracket) = tok.get(0) else {
             return Err(ParseError::ExpectedRBracket(to_vec(tok)));
         };
         tok = &tok[1..];
@@ -161,24 +179,31 @@ fn parse_pattern<L: Language>(tok: &[Token]) -> Result<(Pattern<L>, &[Token]), P
 fn parse_pattern_nosubst<L: Language>(
     mut tok: &[Token],
 ) -> Result<(Pattern<L>, &[Token]), ParseError> {
-    if let Token::PVar(p) = &tok[0] {
+    // the input ended where a pattern was expected.
+    let Some(first) = tok.get(0) else {
+        return Err(ParseError::ParseState(Vec::new()));
+    };
+
+    if let Token::PVar(p) = first {
         let pat = Pattern::PVar(p.to_string());
         return Ok((pat, &tok[1..]));
     }
 
-    if let Token::LParen = tok[0] {
+    if let Token::LParen = first {
         tok = &tok[1..];
 
-        let Token::Ident(op) = &tok[0] else {
+        let Some(Token::Ident(op)) = tok.get(0) else {
             return Err(ParseError::ParseState(to_vec(tok)));
         };
         tok = &tok[1..];
 
         let mut syntax_elems = vec![NestedSyntaxElem::String(op.to_string())];
         loop {
-            if let Token::RParen = tok[0] {
-                break;
-            };
+            match tok.get(0) {
+                Some(Token::RParen) => break,
+                Some(_) => {}
+                None => return Err(ParseError::ParseState(Vec::new())),
+            }
 
             let (se, tok2) = parse_nested_syntax_elem(tok)?;
             tok = tok2;
@@ -195,6 +220,8 @@ fn parse_pattern_nosubst<L: Language>(
             })
             .collect();
         let node = L::from_syntax(&syntax_elems_mock)
+            // every element has to be consumed: `(g c c)` is not a `g` node.
+            .filter(|node| node.to_syntax().len() == syntax_elems_mock.len())
             .ok_or_else(|| ParseError::FromSyntaxFailed(syntax_elems_mock))?;
         let syntax_elems = syntax_elems
             .into_iter()
@@ -207,7 +234,7 @@ fn parse_pattern_nosubst<L: Language>(
         let re = Pattern::ENode(node, syntax_elems);
         Ok((re, tok))
     } else {
-        let Token::Ident(op) = &tok[0] else {
+        let Token::Ident(op) = first else {
             return Err(ParseError::ParseState(to_vec(tok)));
         };
         tok = &tok[1..];
@@ -230,7 +257,7 @@ enum NestedSyntaxElem<L: Language> {
 fn parse_nested_syntax_elem<L: Language>(
     tok: &[Token],
 ) -> Result<(NestedSyntaxElem<L>, &[Token]), ParseError> {
-    if let Token::Slot(slot) = &tok[0] {
+    if let Some(Token::Slot(slot)) = tok.get(0) {
         return Ok((NestedSyntaxElem::Slot(*slot), &tok[1..]));
     }
 
@@ -301,7 +328,7 @@ impl<L: Language> std::fmt::Display for MultiPattern<L> {
         for (i, (pv, n, children)) in self.pats.iter().enumerate() {
             let children = children.iter().map(|x| Pattern::PVar(x.clone())).collect();
             let pat = Pattern::ENode(n.clone(), children);
-            write!(f, "{pv} == {pat}")?;
+            write!(f, "?{pv} == {pat}")?;
             if i != self.pats.len()-1 {
                 write!(f, ", ")?;
             }
